@@ -1,0 +1,59 @@
+//go:build verif
+
+// Contracts for the govc verifier (/verif). Comment-only.
+
+package wallet
+
+// the two namespaces of a wallet database transaction
+//@ macro ANS() = sub(0, bytes(waddrmgrNamespaceKey))
+//@ macro TNS() = sub(0, bytes(wtxmgrNamespaceKey))
+//@ macro A_SYNC() = sub(ANS(), bytes(waddrmgr.syncBucketName))
+//@ macro A_HAS_HASH(h) = HAS(A_SYNC(), K_h(h))
+//@ macro A_HASH_AT(h) = VAL(A_SYNC(), K_h(h))
+//@ macro WDBWF(dbtx) = (dbtx != nil && select(DBlive, ANS()) && select(DBlive, TNS()) && select(DBlive, A_SYNC()))
+//@ macro TIP_H(w) = w.Manager.syncState.syncedTo.Height
+//@ macro TIP_HASH(w) = bytes(w.Manager.syncState.syncedTo.Hash)
+
+// connectBlock: the synced-to stamp (memory and database) becomes the notified block.
+//@ func (*Wallet).connectBlock(w, dbtx, b) (err)
+//@   property C15
+//@   replay wallet_disconnect.go
+//@   requires wf: w != nil && w.Manager != nil && w.NtfnServer != nil && WDBWF(dbtx) && b.Height >= 0
+//@   ensures tip_height: err == nil ==> TIP_H(w) == b.Height
+//@   ensures tip_hash: err == nil ==> TIP_HASH(w) == bytes(b.Hash)
+//@   ensures tip_stored: err == nil ==> A_HAS_HASH(b.Height) && A_HASH_AT(b.Height) == bytes(b.Hash)
+//@   ensures failure_keeps_tip: err != nil ==> TIP_H(w) == old(TIP_H(w)) && TIP_HASH(w) == old(TIP_HASH(w))
+
+// Assumed: the notification server only reads the stores and appends to its own
+// client queues; it does not write the address manager, the transaction store
+// or the arguments it is given.
+//@ func (*NotificationServer).notifyAttachedBlock(s, dbtx, block)
+//@   trusted
+//@   writes nothing
+//@ func (*NotificationServer).notifyDetachedBlock(s, hash)
+//@   trusted
+//@   writes nothing
+
+// Assumed: the chain backend answers header queries without touching wallet memory.
+//@ iface chain.Interface.GetBlockHeader(c, hash) (header, err)
+//@   trusted
+//@   writes nothing
+
+// disconnectBlock: ignored unless the wallet is synced and the notified block
+// is the one the wallet remembers at that height; otherwise the synced-to stamp
+// becomes the parent (height-1 with the hash remembered for it) and that
+// remembered hash stays what it was.
+//@ func (*Wallet).disconnectBlock(w, dbtx, b) (err)
+//@   property C15
+//@   replay wallet_disconnect.go
+//@   requires wf: w != nil && w.Manager != nil && w.NtfnServer != nil && w.TxStore != nil && WDBWF(dbtx) && b.Height >= 1 && TIP_H(w) >= 0
+//@   ensures not_synced_ignored: !old(w.chainClientSynced) ==> err == nil && TIP_H(w) == old(TIP_H(w)) && TIP_HASH(w) == old(TIP_HASH(w)) && DBhas == old(DBhas) && DBval == old(DBval)
+//@   ensures future_ignored: old(w.chainClientSynced) && b.Height > old(TIP_H(w)) ==> err == nil && TIP_H(w) == old(TIP_H(w)) && TIP_HASH(w) == old(TIP_HASH(w)) && DBhas == old(DBhas) && DBval == old(DBval)
+//@   ensures stale_ignored: old(w.chainClientSynced) && b.Height <= old(TIP_H(w)) && old(A_HAS_HASH(b.Height)) && old(A_HASH_AT(b.Height)) != bytes(b.Hash)
+//@       ==> TIP_H(w) == old(TIP_H(w)) && TIP_HASH(w) == old(TIP_HASH(w)) && DBhas == old(DBhas) && DBval == old(DBval)
+//@   ensures tip_is_parent_height: err == nil && old(w.chainClientSynced) && b.Height <= old(TIP_H(w)) && old(A_HAS_HASH(b.Height)) && old(A_HASH_AT(b.Height)) == bytes(b.Hash)
+//@       ==> TIP_H(w) == b.Height - 1
+//@   ensures tip_is_parent_hash: err == nil && old(w.chainClientSynced) && b.Height <= old(TIP_H(w)) && old(A_HAS_HASH(b.Height)) && old(A_HASH_AT(b.Height)) == bytes(b.Hash)
+//@       ==> TIP_HASH(w) == old(A_HASH_AT(b.Height - 1))
+//@   ensures parent_hash_kept: err == nil && old(w.chainClientSynced) && b.Height <= old(TIP_H(w)) && old(A_HAS_HASH(b.Height)) && old(A_HASH_AT(b.Height)) == bytes(b.Hash)
+//@       ==> A_HAS_HASH(b.Height - 1) && A_HASH_AT(b.Height - 1) == old(A_HASH_AT(b.Height - 1))
